@@ -19,7 +19,7 @@ fn sugar_for(variant: u64) -> Sugar {
     Sugar {
         derived_copulas: true,
         retrospective: true,
-        interval_pad: [0usize, 3, 1, 17][(variant % 4) as usize],
+        interval_pad: [0usize, 3, 1, 17, 30, 64][(variant % 6) as usize],
         placeholder_suffix: ["", "x", "123", "_", "abc-d"][((variant / 4) % 5) as usize].to_string(),
         coin: if variant % 3 == 0 { None } else { Some(variant.wrapping_mul(0x9E37_79B9_7F4A_7C15) | 1) },
     }
@@ -143,7 +143,7 @@ pub fn run(ctx: &mut Ctx) {
                 }
             }
         }
-        for v in [0usize, 7, 42, usize::MAX] {
+        for v in [0usize, 7, 42, usize::MAX, usize::MAX - 1, (1 << 53) + 1, 86_400_000_000_000_001, 1 << 32, 9_007_199_254_740_993] {
             fixed.push(TD::interval(v));
             fixed.push(TD::comp(Kind::ConjSeq, vec![TD::word("a"), TD::interval(v), TD::word("b")]));
         }
@@ -170,7 +170,7 @@ pub fn run(ctx: &mut Ctx) {
         let names = safe_names(f);
         let g = Gen { names: &names, max_depth: 6, max_arity: 4, placeholders: false, set_bias: false };
         let d__ = 2 + rng.below(4);
-        let raw = g.term(&mut rng, d__, false);
+        let raw = g.term_x(&mut rng, d__);
         let t = plant(&raw, &mut rng);
         let variant = rng.next_u64();
         check(ctx, f, &t, variant, "random-planted");
